@@ -32,7 +32,9 @@ pub open spec fn paren(s: Seq<char>) -> Seq<char> { "("@ + s + ")"@ }
 pub open spec fn is_bin(t: ExprAST) -> bool { t is Binary }
 pub open spec fn bin_l(t: ExprAST) -> int { match t { ExprAST::Binary(op, _, _) => lbp(op@), _ => -1 } }
 pub open spec fn bin_r(t: ExprAST) -> int { match t { ExprAST::Binary(op, _, _) => rbp(op@), _ => -1 } }
-pub open spec fn render(t: ExprAST) -> Seq<char> decreases t {
+// kinds not modelled in this probe render to an uninterpreted text
+pub uninterp spec fn other_text(t: ExprAST) -> Seq<char>;
+pub open spec fn render(t: ExprAST) -> Seq<char> decreases t, 0int {
     match t {
         ExprAST::Reference(n) => n@,
         ExprAST::Unary(op, rhs) => if *rhs is Binary || *rhs is Ternary { op@ + " ("@ + render(*rhs) + ")"@ } else { op@ + " "@ + render(*rhs) },
@@ -43,30 +45,34 @@ pub open spec fn render(t: ExprAST) -> Seq<char> decreases t {
             l + " "@ + op@ + " "@ + r
         },
         ExprAST::Ternary(c, a, b) => (if *c is Ternary { paren(render(*c)) } else { render(*c) }) + " ? "@ + render(*a) + " : "@ + render(*b),
-        _ => Seq::empty(),     // literals, calls, lists, maps, statements: separate clauses (not in this probe)
+        ExprAST::None => ""@,
+        _ => other_text(t),     // literals, calls, lists, maps, statements: separate clauses (not in this probe)
     }
 }
-pub open spec fn render_operand(t: ExprAST) -> Seq<char> decreases t, 1int via render_operand_dec {
+pub open spec fn render_operand(t: ExprAST) -> Seq<char> decreases t, 1int {
     if t is Binary || t is Ternary || t is Unary || t is Postfix { paren(render(t)) } else { render(t) }
 }
-#[via_fn] proof fn render_operand_dec(t: ExprAST) { }
 '''
 P = "        ensures r@ == "
 PRINTER = {
  'get_precidence': dict(spec="        ensures r.0 == (*self is Binary), *self is Binary ==> r.1.0 == bin_l(*self) && r.1.1 == bin_r(*self),"),
  'is_ternary': dict(spec="        ensures r == (*self is Ternary),"),
  'is_prefix_operand': dict(spec="        ensures r == !(*self is Binary || *self is Ternary),"),
- 'expr': dict(spec="        ensures (*self is Reference || *self is Unary || *self is Postfix || *self is Binary || *self is Ternary) ==> r@ == render(*self),\n        decreases self, 2int,"),
+ 'expr': dict(spec="        ensures r@ == render(*self),\n        decreases self, 2int,"),
  'reference_expr': dict(spec=P+"val@,"),
  'unary_expr': dict(spec="        requires *self == ExprAST::Unary(op, Box::new(*rhs)),\n"+P+"render(*self),\n        decreases self, 1int,"),
- 'operand_expr': dict(spec=P+"render_operand(*self) || !(*self is Reference || *self is Unary || *self is Postfix || *self is Binary || *self is Ternary),\n        decreases self, 3int,"),
+ 'operand_expr': dict(spec=P+"render_operand(*self),\n        decreases self, 3int,"),
  'binary_expr': dict(spec="        requires *self == ExprAST::Binary(op, Box::new(*lhs), Box::new(*rhs)),\n"+P+"render(*self),\n        decreases self, 1int,"),
  'postfix_expr': dict(spec="        requires self matches ExprAST::Postfix(l, o) && **l == *lhs && o@ == op@,\n"+P+"render(*self),\n        decreases self, 1int,"),
  'ternary_expr': dict(spec="        requires *self == ExprAST::Ternary(Box::new(*condition), Box::new(*lhs), Box::new(*rhs)),\n"+P+"render(*self),\n        decreases self, 1int,"),
 }
-for fn_ in ['literal_expr','function_expr','list_expr','map_expr','chain_expr']:
-    PRINTER[fn_]=dict(spec="        requires false,\n        decreases self, 0int,")
-
-PRINTER['map_expr'] = dict(spec="        requires false,\n        decreases self, 0int,", rewrite=[("let (key, value) = m[i].clone();","let key = m[i].0.clone(); let value = m[i].1.clone();  // rule 16: tuple clone = field-wise clones")])
-
-PRINTER['literal_expr'] = dict(spec="        requires false,\n        decreases self, 0int,", rewrite=[("value.contains('\"')","vx_contains_char(value, '\"')")])
+STUB = "        ensures r@ == other_text(*self),\n        decreases self, 0int,"
+for fn_ in ['function_expr','list_expr','chain_expr']:
+    PRINTER[fn_]=dict(spec=STUB, attr="    #[verifier::external_body]")
+PRINTER['map_expr'] = dict(spec=STUB, attr="    #[verifier::external_body]", rewrite=[("let (key, value) = m[i].clone();","let key = m[i].0.clone(); let value = m[i].1.clone();")])
+PRINTER['literal_expr'] = dict(spec=STUB, attr="    #[verifier::external_body]", rewrite=[("value.contains('\"')","vx_contains_char(value, '\"')")])
+H = "        proof { match self { %s => { %s }, _ => {} } }"
+PRINTER['unary_expr']['proof']=[("if rhs.is_prefix_operand() {", H % ("ExprAST::Unary(_, b)", "assert(**b == *rhs); assert(decreases_to!(self => b));"), 'before')]
+PRINTER['binary_expr']['proof']=[("let (l_bp, r_bp) =", H % ("ExprAST::Binary(_, b1, b2)", "assert(**b1 == *lhs && **b2 == *rhs); assert(decreases_to!(self => b1)); assert(decreases_to!(self => b2));"), 'before')]
+PRINTER['postfix_expr']['proof']=[("vx_add(", H % ("ExprAST::Postfix(b, _)", "assert(**b == *lhs); assert(decreases_to!(self => b));"), 'before')]
+PRINTER['ternary_expr']['proof']=[("let cond =", H % ("ExprAST::Ternary(b1, b2, b3)", "assert(**b1 == *condition && **b2 == *lhs && **b3 == *rhs); assert(decreases_to!(self => b1)); assert(decreases_to!(self => b2)); assert(decreases_to!(self => b3));"), 'before')]
